@@ -456,8 +456,20 @@ fn judge_pool(ex: &mut Exec, cfg: &str, obs: Vec<StepObs>) -> Result<(), Violati
 
 fn judge_constructors(ex: &mut Exec, r: &Raw, cfg: &str, got: Vec<(&'static str, bool)>) -> Result<(), Violation> {
     let want = constructors_ref(r);
-    for ((name, g), (wname, w)) in got.iter().zip(want.iter()) {
-        assert_eq!(name, wname, "harness: constructor lists out of step");
+    // pair by name: IndexedCoproduct::new is only exercised when its size map is itself a legal
+    // finite function, so the two lists can differ in length when FiniteFunction::new misjudges
+    let has = |l: &Vec<(&'static str, bool)>, n: &str| l.iter().any(|(k, _)| *k == n);
+    if has(&got, "IndexedCoproduct::new") != has(&want, "IndexedCoproduct::new") {
+        return viol(
+            "C05:FiniteFunction::new:acceptance",
+            format!("[{}] FiniteFunction::new {} the size table {:?} with claimed codomain {} although {}", cfg, if has(&got, "IndexedCoproduct::new") { "accepted" } else { "rejected" }, r.ic_sizes, r.ic_sizes_cod, if has(&want, "IndexedCoproduct::new") { "every entry is below it" } else { "an entry is not below it" }),
+        );
+    }
+    for (name, g) in got.iter() {
+        let w = match want.iter().find(|(k, _)| k == name) {
+            Some((_, w)) => w,
+            None => continue,
+        };
         if g != w {
             return viol(&format!("C05:{}:acceptance", name), format!("[{}] {} {} the raw parts although the documented condition {} ({}): {:?}", cfg, name, if *g { "accepted" } else { "rejected" }, if *w { "holds" } else { "fails" }, r.what, r));
         }
